@@ -4,6 +4,7 @@ import (
 	"fmt"
 	"os"
 	"os/exec"
+	goruntime "runtime"
 	"strconv"
 	"strings"
 	"testing"
@@ -117,8 +118,19 @@ func safeQuery(pe *eval.PolicyEngine, src, dst, proto, port string) (ok bool, er
 			pan = r
 		}
 	}()
+	noteEvalCall()
 	ok, err = pe.CheckIfAllowed(src, dst, proto, port)
 	return
+}
+
+// noteEvalCall: the engine's verdict cache (debug mode) opens cacheHitsLog.txt at every hit and never closes it; only
+// finalizers release the descriptors. A case with thousands of queries must not depend on when the collector runs.
+var evalCalls int
+
+func noteEvalCall() {
+	if evalCalls++; evalCalls%2000 == 0 {
+		goruntime.GC()
+	}
 }
 
 func runCLI(args ...string) (stdout, stderr string, code int) {
